@@ -42,7 +42,11 @@ VERIF_FAIL = (
     "constructed value may fail to meet its declared type invariant", "may fail to meet",
     "unable to prove", "unreachable", "not satisfied", "cannot show", "failed",
 )
-TOOL_LIMIT = ("resource limit", "rlimit", "timed out", "timeout", "solver", "panicked", "internal error",
+VERIF_KEYS = ("not satisfied", "assertion failed", "arithmetic underflow/overflow", "division by zero", "shift underflow/overflow",
+              "may not terminate", "could not show termination", "decreases", "unable to prove", "type invariant", "failed to meet",
+              "precondition", "postcondition", "invariant", "unreachable", "index out of bounds", "cannot prove", "could not prove",
+              "possible overflow", "possible underflow", "truncat")
+TOOL_LIMIT = ("resource limit", "rlimit", "timed out", "timeout", "solver returned", "panicked", "internal error",
               "not supported", "unsupported", "is not supported")
 
 
@@ -131,9 +135,7 @@ def classify_diag(d):
     low = msg.lower()
     if any(k in low for k in TOOL_LIMIT):
         return "tool"
-    if any(low.startswith(k) or k == low for k in VERIF_FAIL[:14]):
-        return "verif"
-    if "not satisfied" in low or "assertion" in low or "overflow" in low or "termin" in low:
+    if any(k in low for k in VERIF_KEYS):
         return "verif"
     return "tool"  # type errors, unsupported constructs, ... -> undecided
 
